@@ -1,6 +1,6 @@
 """C12 - event descriptor matching: one matcher, scanner-loop guards, copy agreement, normalisation at
 static resolution sites (DESIGN 4/C12)."""
-from .. import facts, tab, cg
+from .. import cfg as cfgm, facts, tab, cg
 from ..facts import AnalysisBroken, strip, sub, locstr
 
 QUICK = ['src/uscxml/util/String.cpp', 'src/uscxml/interpreter/InterpreterImpl.cpp', 'src/uscxml/debug/Breakpoint.cpp',
@@ -230,10 +230,42 @@ def fingerprint(n):
     return out
 
 
+def trie_rules(rep, fb, r5, r6):
+    """word registration and subtree collection of the prefix trie (shared with C06: static event-descriptor resolution)"""
+    # ---- R12.5
+    aw = fb.fn('uscxml::Trie::addWord')
+    marks = [n for n in aw.walk() if n['k'] == 'BinaryOperator' and n.get('op') == '=' and any(s['k'] == 'MemberExpr' and s['ref'].get('name') == 'hasWord' for s in sub(n['c'][0])) and tab.const_of(n['c'][1]) == 1]
+    if not marks:
+        raise AnalysisBroken('Trie::addWord no longer marks word nodes (hasWord = true)')
+    for mk in marks:
+        conds = [a_['c'][0] for a_ in aw.ancestors(mk) if a_['k'] == 'IfStmt']
+        extra = []
+        for cnd in conds:
+            names = {s['ref']['name'] for s in sub(cnd) if s['k'] in ('MemberExpr', 'DeclRefExpr') and 'name' in s.get('ref', {})}
+            if not ({'hasWord'} & names):
+                extra.append(fb.text(cnd)[:60])
+        rep.check(not extra, r5, 'Trie::addWord|word registration', locstr(mk), 'a word is registered whenever its node is not a word yet%s' % ('' if not extra else '; but here it additionally depends on `%s`: a word whose path already exists (prefix of a longer word) is never registered' % extra[0]))
+
+    # ---- R12.6
+    from . import _skel
+    gw = fb.fn('uscxml::Trie::getChildsWithWords')
+    gg = cfgm.CFG(gw)
+    rec = [n for n in gw.walk() if n['k'] in ('CXXMemberCallExpr', 'CallExpr') and n.get('callee', {}).get('q', '').endswith('Trie::getChildsWithWords')]
+    own = [n for n in gw.walk() if n['k'] == 'CXXMemberCallExpr' and n.get('callee', {}).get('q', '').endswith('::push_back')]
+    if not rec:
+        raise AnalysisBroken('Trie::getChildsWithWords: recursive descent not found')
+    in_loop = [n for n in rec if any(a['k'] in ('WhileStmt', 'ForStmt', 'CXXForRangeStmt') for a in gw.ancestors(n))]
+    cut = [n for n in in_loop if _skel.guarded_by(gw, gg, n, ('hasWord',))]
+    rep.check(bool(in_loop) and not cut, r6, 'Trie::getChildsWithWords|descends into every child', locstr(rec[0]),
+              'the recursive descent %s' % ('is unconditional for every child' if in_loop and not cut else 'DEPENDS on the child\'s hasWord flag: names below another name (error.comm.timeout below error.comm) are not found by a prefix lookup'))
+    rep.check(any(_skel.guarded_by(gw, gg, n, ('hasWord',)) for n in own), r6, 'Trie::getChildsWithWords|own word', gw.where(), 'the node itself is added when it is a word: %s' % any(_skel.guarded_by(gw, gg, n, ('hasWord',)) for n in own))
+
+
 def run(rep, tier):
     rep.rule('R12.1', 'one matcher: the interpreter, the validator and the debugger decide descriptor matches by calling uscxml::nameMatch; no second matcher is defined in src/')
     rep.rule('R12.2', 'scanner loops (tokenize, spaceNormalize, nameMatch and the copies shipped for generated C) take every non-empty token: guard normal form start < i, and a skip/start/last-token combination from the confirmed-correct table')
     rep.rule('R12.3', 'copy agreement: StateMachine::nameMatch (test-gen-c.cpp scaffolding) has the same decision features as uscxml::nameMatch')
+    rep.rule('R12.6', 'static resolution finds every event name below a prefix: Trie::getChildsWithWords adds the node\'s own word and descends into EVERY child, whether or not that child is itself a word (a.b and a.b.c are both names)')
     rep.rule('R12.5', 'static resolution registers every event name: Trie::addWord marks the final node as a word under no other condition than that it is not one yet')
     rep.rule('R12.4', 'static resolution sites normalise descriptors alike: every non-literal argument of Trie::getWordsWithPrefix derived from an event-attribute token is stripped of a trailing "*"/".*" and a trailing "."')
     rep.assume('the relation nameMatch computes on all strings is not decided here (needs execution or a solver)')
@@ -364,16 +396,4 @@ def run(rep, tier):
                           sorted(feats), 'stripped' if star else 'NOT stripped (only exact "*" handled)' if 'eq:*' in feats else 'NOT stripped', 'stripped' if dot else 'NOT stripped'))
     rep.minimum('R12.4', sites, 2, 'trie lookups of event-attribute tokens (Promela, VHDL)')
 
-    # ---- R12.5
-    aw = fb.fn('uscxml::Trie::addWord')
-    marks = [n for n in aw.walk() if n['k'] == 'BinaryOperator' and n.get('op') == '=' and any(s['k'] == 'MemberExpr' and s['ref'].get('name') == 'hasWord' for s in sub(n['c'][0])) and tab.const_of(n['c'][1]) == 1]
-    if not marks:
-        raise AnalysisBroken('Trie::addWord no longer marks word nodes (hasWord = true)')
-    for mk in marks:
-        conds = [a_['c'][0] for a_ in aw.ancestors(mk) if a_['k'] == 'IfStmt']
-        extra = []
-        for cnd in conds:
-            names = {s['ref']['name'] for s in sub(cnd) if s['k'] in ('MemberExpr', 'DeclRefExpr') and 'name' in s.get('ref', {})}
-            if not ({'hasWord'} & names):
-                extra.append(fb.text(cnd)[:60])
-        rep.check(not extra, 'R12.5', 'Trie::addWord|word registration', locstr(mk), 'a word is registered whenever its node is not a word yet%s' % ('' if not extra else '; but here it additionally depends on `%s`: a word whose path already exists (prefix of a longer word) is never registered' % extra[0]))
+    trie_rules(rep, fb, 'R12.5', 'R12.6')
